@@ -84,7 +84,7 @@ fn search(check_loc: bool) {
         }
     }
     // control skeleton: only the selected arm of an `if` is evaluated; only #f is false; an operand's error is the call's error
-    let fixed: [(&str, &str); 8] = [
+    let fixed: [(&str, &str); 12] = [
         ("(car (cons (if #t 1 (car 5)) 2))", "value 1"),
         ("(car (cons (if #f (car 5) 2) 2))", "value 2"),
         ("(car (cons (if 0 1 2) 2))", "value 1"),
@@ -93,8 +93,15 @@ fn search(check_loc: bool) {
         ("(define x 1) (car (cons (set! x 2) x))", "value Void"),
         ("(vector 1 (nope 2) 3)", "UnboundedSymbol"),
         ("(define y 1) (vector (set! y 5) y)", "value #(<void> 5)"),
+        // the operator of an `if` test is looked up like any other, also when it is spelled like a builtin
+        ("(define (f not) (car (cons (if (not 1) 2 3) 0))) (f 5)", "TypeMisMatch"),
+        ("(define (f car) (vector (if (car 1) 2 3))) (f 5)", "TypeMisMatch"),
+        ("(define (f x) (car (cons (if (nope x) 2 3) 0))) (f 5)", "UnboundedSymbol"),
+        ("(define (f not) (car (cons (if (not 1) 2 3) 0))) (f (lambda (v) (car v)))", "TypeMisMatch"),
     ];
+    // (these say nothing about locations: they are not part of the location witness)
     for (program, want) in fixed.iter() {
+        if check_loc { break; }
         n += 1;
         match run(program) {
             Ok((got, _)) if got == *want || (*want == "value #(<void> 5)" && got.starts_with("value #(")) => {}
